@@ -345,11 +345,40 @@ def opDecide (j : Json) : Except String Json := do
   return okJ (Json.mkObj [("python", discard filt nisv m), ("cpp", discardCpp (filt.getD 0) nisv m),
     ("helper", match filt with | some k => exceeds nisv k m | none => false), ("float", fl)])
 
+/-- `checkjac`: a recorded/parsed Jacobian block (body = entries row-major over outs x wrt) against the
+model's own symbolic derivative `jacobianFlat outs wrt` (Lean `Expr.diff`), exactly, at rational points. -/
+def opCheckJac (j : Json) : Except String Json := do
+  let prog ← jProgram (← j.getObjVal? "prog")
+  let outs ← jList jExpr (← j.getObjVal? "outs")
+  let wrt ← jStrList (← j.getObjVal? "wrt")
+  let pts ← jList (jList jRat) (← j.getObjVal? "points")
+  let spec := jacobianFlat outs wrt
+  let ws := prog.WellScoped
+  let mut agree := true
+  let mut evaluated : Nat := 0
+  let mut firstBad : Option Nat := none
+  let mut idx : Nat := 0
+  for vals in pts do
+    let a := prog.exec ratSem vals
+    let b := spec.mapM (fun e => e.eval ratSem (prog.args.zip vals))
+    match a, b with
+    | some x, some y =>
+      evaluated := evaluated + 1
+      if x != y then
+        agree := false
+        if firstBad.isNone then firstBad := some idx
+    | _, _ => pure ()
+    idx := idx + 1
+  return okJ (Json.mkObj [("wellscoped", ws), ("agree", agree), ("evaluated", evaluated),
+    ("firstbad", match firstBad with | some i => Json.num i | none => Json.null),
+    ("speclen_ok", spec.length == prog.body.length)])
+
 def dispatch (j : Json) : Except String Json := do
   let op ← (← j.getObjVal? "op").getStr?
   match op with
   | "pyrun" => opPyRun j
   | "checkprog" => opCheckProg j
+  | "checkjac" => opCheckJac j
   | "layout" => opLayout j
   | "bind" => opBind j
   | "fromdata" => opFromData j
